@@ -5,6 +5,8 @@
    up there, with this proved model as the oracle). *)
 From Coset.Model Require Import Prelude Cbor Iana Label Msg Key Cwt Context Builders.
 From Coset.Proofs Require Import BuilderInv.
+From Coset.Proofs Require BuilderFrames.
+Import BuilderFrames.
 Open Scope Z_scope.
 
 (* header builder = the documented effect written independently as record updates *)
@@ -153,3 +155,744 @@ Example C19_nonvacuous :
   = Ok (mkHeader None [] None [] [] [x02] [] [(LInt 8, VNull)])
   /\ run_ops header_builder_step [HO_value 7 VNull] header_default = Panic.
 Proof. split; reflexivity. Qed.
+
+(* ===== all 14 builders (Proofs/BuilderFrames.v): exact effect of every call (the one field it
+   replaces or appends to, every other field unchanged, documented panics exact; creators: the
+   closure's output goes to exactly one field), frame law for every returning call, later setter
+   overrides earlier, accumulation laws, and commutation of independent calls ===== *)
+Theorem C19_header_step_effect :
+  (forall h b, exists h', header_builder_step h (HO_key_id b) = Ok h' /\
+     header_fields h' (h_alg h) (h_crit h) (h_ctype h) b (h_iv h) (h_piv h) (h_csigs h) (h_rest h))
+  /\ (forall h a, exists h', header_builder_step h (HO_algorithm a) = Ok h' /\
+     header_fields h' (Some (PAssigned a)) (h_crit h) (h_ctype h) (h_kid h) (h_iv h) (h_piv h) (h_csigs h) (h_rest h))
+  /\ (forall h p, exists h', header_builder_step h (HO_add_critical p) = Ok h' /\
+     header_fields h' (h_alg h) (h_crit h ++ [RAssigned p]) (h_ctype h) (h_kid h) (h_iv h) (h_piv h) (h_csigs h) (h_rest h))
+  /\ (forall h l, exists h', header_builder_step h (HO_add_critical_label l) = Ok h' /\
+     header_fields h' (h_alg h) (h_crit h ++ [l]) (h_ctype h) (h_kid h) (h_iv h) (h_piv h) (h_csigs h) (h_rest h))
+  /\ (forall h cf, exists h', header_builder_step h (HO_content_format cf) = Ok h' /\
+     header_fields h' (h_alg h) (h_crit h) (Some (RAssigned cf)) (h_kid h) (h_iv h) (h_piv h) (h_csigs h) (h_rest h))
+  /\ (forall h t, exists h', header_builder_step h (HO_content_type t) = Ok h' /\
+     header_fields h' (h_alg h) (h_crit h) (Some (RText t)) (h_kid h) (h_iv h) (h_piv h) (h_csigs h) (h_rest h))
+  (* iv clears partial_iv and conversely *)
+  /\ (forall h b, exists h', header_builder_step h (HO_iv b) = Ok h' /\
+     header_fields h' (h_alg h) (h_crit h) (h_ctype h) (h_kid h) b [] (h_csigs h) (h_rest h))
+  /\ (forall h b, exists h', header_builder_step h (HO_partial_iv b) = Ok h' /\
+     header_fields h' (h_alg h) (h_crit h) (h_ctype h) (h_kid h) [] b (h_csigs h) (h_rest h))
+  /\ (forall h s, exists h', header_builder_step h (HO_add_counter_signature s) = Ok h' /\
+     header_fields h' (h_alg h) (h_crit h) (h_ctype h) (h_kid h) (h_iv h) (h_piv h) (h_csigs h ++ [s]) (h_rest h))
+  (* value: documented panic exactly on the core labels 1..7 *)
+  /\ (forall h l v, ~ (1 <= l <= 7) -> exists h', header_builder_step h (HO_value l v) = Ok h' /\
+     header_fields h' (h_alg h) (h_crit h) (h_ctype h) (h_kid h) (h_iv h) (h_piv h) (h_csigs h) (h_rest h ++ [(LInt l, v)]))
+  /\ (forall h l v, 1 <= l <= 7 -> header_builder_step h (HO_value l v) = Panic)
+  /\ (forall h l v, exists h', header_builder_step h (HO_text_value l v) = Ok h' /\
+     header_fields h' (h_alg h) (h_crit h) (h_ctype h) (h_kid h) (h_iv h) (h_piv h) (h_csigs h) (h_rest h ++ [(LText l, v)])).
+Proof. exact BuilderFrames.header_step_effect. Qed.
+Print Assumptions C19_header_step_effect.
+
+Theorem C19_header_step_frame :
+  forall h o h',
+  header_builder_step h o = Ok h' -> header_unchanged_outside (header_writes o) h h'.
+Proof. exact BuilderFrames.header_step_frame. Qed.
+Print Assumptions C19_header_step_frame.
+
+Theorem C19_header_later_setter_overrides :
+  (forall h b1 b2, seq2 header_builder_step h (HO_key_id b1) (HO_key_id b2) = header_builder_step h (HO_key_id b2))
+  /\ (forall h a1 a2, seq2 header_builder_step h (HO_algorithm a1) (HO_algorithm a2) = header_builder_step h (HO_algorithm a2))
+  /\ (forall h a1 a2, seq2 header_builder_step h (HO_content_format a1) (HO_content_format a2) = header_builder_step h (HO_content_format a2))
+  /\ (forall h a1 a2, seq2 header_builder_step h (HO_content_type a1) (HO_content_type a2) = header_builder_step h (HO_content_type a2))
+  (* content_format and content_type set the same field *)
+  /\ (forall h a1 a2, seq2 header_builder_step h (HO_content_format a1) (HO_content_type a2) = header_builder_step h (HO_content_type a2))
+  /\ (forall h a1 a2, seq2 header_builder_step h (HO_content_type a1) (HO_content_format a2) = header_builder_step h (HO_content_format a2))
+  /\ (forall h b1 b2, seq2 header_builder_step h (HO_iv b1) (HO_iv b2) = header_builder_step h (HO_iv b2))
+  /\ (forall h b1 b2, seq2 header_builder_step h (HO_partial_iv b1) (HO_partial_iv b2) = header_builder_step h (HO_partial_iv b2))
+  (* iv and partial_iv override each other *)
+  /\ (forall h b1 b2, seq2 header_builder_step h (HO_iv b1) (HO_partial_iv b2) = header_builder_step h (HO_partial_iv b2))
+  /\ (forall h b1 b2, seq2 header_builder_step h (HO_partial_iv b1) (HO_iv b2) = header_builder_step h (HO_iv b2)).
+Proof. exact BuilderFrames.header_later_setter_overrides. Qed.
+Print Assumptions C19_header_later_setter_overrides.
+
+Theorem C19_header_accumulates :
+  (forall h p, header_builder_step h (HO_add_critical p) = header_builder_step h (HO_add_critical_label (RAssigned p)))
+  /\ (forall ls h, run_ops header_builder_step (map HO_add_critical_label ls) h = Ok (set_crit (h_crit h ++ ls) h))
+  /\ (forall ps h, run_ops header_builder_step (map HO_add_critical ps) h = Ok (set_crit (h_crit h ++ map RAssigned ps) h))
+  /\ (forall ss h, run_ops header_builder_step (map HO_add_counter_signature ss) h = Ok (set_csigs (h_csigs h ++ ss) h))
+  /\ (forall lvs h, Forall (fun lv => ~ (1 <= fst lv <= 7)) lvs ->
+        run_ops header_builder_step (map (fun lv => HO_value (fst lv) (snd lv)) lvs) h
+        = Ok (set_rest (h_rest h ++ map (fun lv => (LInt (fst lv), snd lv)) lvs) h))
+  /\ (forall lvs h,
+        run_ops header_builder_step (map (fun lv => HO_text_value (fst lv) (snd lv)) lvs) h
+        = Ok (set_rest (h_rest h ++ map (fun lv => (LText (fst lv), snd lv)) lvs) h)).
+Proof. exact BuilderFrames.header_accumulates. Qed.
+Print Assumptions C19_header_accumulates.
+
+Theorem C19_header_ops_commute :
+  forall h o1 o2, header_independent o1 o2 ->
+  seq2 header_builder_step h o1 o2 = seq2 header_builder_step h o2 o1.
+Proof. exact BuilderFrames.header_ops_commute. Qed.
+Print Assumptions C19_header_ops_commute.
+
+Theorem C19_signature_step_effect :
+  (* retained wire bytes are dropped *)
+  (forall s h, exists s', signature_builder_step s (SO_protected h) = Ok s' /\
+     signature_fields s' (mkProtected None h) (s_unprot s) (s_sig s))
+  /\ (forall s h, exists s', signature_builder_step s (SO_unprotected h) = Ok s' /\
+     signature_fields s' (s_prot s) h (s_sig s))
+  /\ (forall s b, exists s', signature_builder_step s (SO_signature b) = Ok s' /\
+     signature_fields s' (s_prot s) (s_unprot s) b).
+Proof. exact BuilderFrames.signature_step_effect. Qed.
+Print Assumptions C19_signature_step_effect.
+
+Theorem C19_signature_step_frame :
+  forall s o s',
+  signature_builder_step s o = Ok s' -> signature_unchanged_outside (signature_writes o) s s'.
+Proof. exact BuilderFrames.signature_step_frame. Qed.
+Print Assumptions C19_signature_step_frame.
+
+Theorem C19_signature_later_setter_overrides :
+  (forall s h1 h2, seq2 signature_builder_step s (SO_protected h1) (SO_protected h2) = signature_builder_step s (SO_protected h2))
+  /\ (forall s h1 h2, seq2 signature_builder_step s (SO_unprotected h1) (SO_unprotected h2) = signature_builder_step s (SO_unprotected h2))
+  /\ (forall s b1 b2, seq2 signature_builder_step s (SO_signature b1) (SO_signature b2) = signature_builder_step s (SO_signature b2)).
+Proof. exact BuilderFrames.signature_later_setter_overrides. Qed.
+Print Assumptions C19_signature_later_setter_overrides.
+
+Theorem C19_signature_ops_commute :
+  forall s o1 o2, signature_independent o1 o2 ->
+  seq2 signature_builder_step s o1 o2 = seq2 signature_builder_step s o2 o1.
+Proof. exact BuilderFrames.signature_ops_commute. Qed.
+Print Assumptions C19_signature_ops_commute.
+
+Theorem C19_sign1_step_effect :
+  (* retained wire bytes are dropped *)
+  (forall m h, exists m', sign1_builder_step m (S1_protected h) = Ok m' /\
+     sign1_fields m' (mkProtected None h) (s1_unprot m) (s1_payload m) (s1_sig m))
+  /\ (forall m h, exists m', sign1_builder_step m (S1_unprotected h) = Ok m' /\
+     sign1_fields m' (s1_prot m) h (s1_payload m) (s1_sig m))
+  /\ (forall m b, exists m', sign1_builder_step m (S1_signature b) = Ok m' /\
+     sign1_fields m' (s1_prot m) (s1_unprot m) (s1_payload m) b)
+  /\ (forall m b, exists m', sign1_builder_step m (S1_payload b) = Ok m' /\
+     sign1_fields m' (s1_prot m) (s1_unprot m) (Some b) (s1_sig m))
+  /\ (forall m aad f, creator_spec (sign1_builder_step m (S1_create_signature aad f))
+     (Sign1_tbs_data m aad) f
+     (serialisable (s1_prot m))
+     (fun m' out => sign1_fields m' (s1_prot m) (s1_unprot m) (s1_payload m) out))
+  /\ (forall m pl aad f, creator_spec (sign1_builder_step m (S1_create_detached_signature pl aad f))
+     (Sign1_tbs_detached_data m pl aad) f
+     (s1_payload m = None /\ serialisable (s1_prot m))
+     (fun m' out => sign1_fields m' (s1_prot m) (s1_unprot m) (s1_payload m) out))
+  /\ (forall m aad f, creator_spec (sign1_builder_step m (S1_try_create_signature aad f))
+     (Sign1_tbs_data m aad) f
+     (serialisable (s1_prot m))
+     (fun m' out => sign1_fields m' (s1_prot m) (s1_unprot m) (s1_payload m) out))
+  /\ (forall m pl aad f, creator_spec (sign1_builder_step m (S1_try_create_detached_signature pl aad f))
+     (Sign1_tbs_detached_data m pl aad) f
+     (s1_payload m = None /\ serialisable (s1_prot m))
+     (fun m' out => sign1_fields m' (s1_prot m) (s1_unprot m) (s1_payload m) out)).
+Proof. exact BuilderFrames.sign1_step_effect. Qed.
+Print Assumptions C19_sign1_step_effect.
+
+Theorem C19_sign1_step_frame :
+  forall m o m',
+  sign1_builder_step m o = Ok m' -> sign1_unchanged_outside (sign1_writes o) m m'.
+Proof. exact BuilderFrames.sign1_step_frame. Qed.
+Print Assumptions C19_sign1_step_frame.
+
+Theorem C19_sign1_later_setter_overrides :
+  (forall m h1 h2, seq2 sign1_builder_step m (S1_protected h1) (S1_protected h2) = sign1_builder_step m (S1_protected h2))
+  /\ (forall m h1 h2, seq2 sign1_builder_step m (S1_unprotected h1) (S1_unprotected h2) = sign1_builder_step m (S1_unprotected h2))
+  /\ (forall m b1 b2, seq2 sign1_builder_step m (S1_signature b1) (S1_signature b2) = sign1_builder_step m (S1_signature b2))
+  /\ (forall m b1 b2, seq2 sign1_builder_step m (S1_payload b1) (S1_payload b2) = sign1_builder_step m (S1_payload b2)).
+Proof. exact BuilderFrames.sign1_later_setter_overrides. Qed.
+Print Assumptions C19_sign1_later_setter_overrides.
+
+Theorem C19_sign1_ops_commute :
+  forall m o1 o2, sign1_independent o1 o2 ->
+  seq2 sign1_builder_step m o1 o2 = seq2 sign1_builder_step m o2 o1.
+Proof. exact BuilderFrames.sign1_ops_commute. Qed.
+Print Assumptions C19_sign1_ops_commute.
+
+Theorem C19_sign_step_effect :
+  (* retained wire bytes are dropped *)
+  (forall m h, exists m', sign_builder_step m (SN_protected h) = Ok m' /\
+     sign_fields m' (mkProtected None h) (sn_unprot m) (sn_payload m) (sn_sigs m))
+  /\ (forall m h, exists m', sign_builder_step m (SN_unprotected h) = Ok m' /\
+     sign_fields m' (sn_prot m) h (sn_payload m) (sn_sigs m))
+  /\ (forall m b, exists m', sign_builder_step m (SN_payload b) = Ok m' /\
+     sign_fields m' (sn_prot m) (sn_unprot m) (Some b) (sn_sigs m))
+  /\ (forall m s, exists m', sign_builder_step m (SN_add_signature s) = Ok m' /\
+     sign_fields m' (sn_prot m) (sn_unprot m) (sn_payload m) (sn_sigs m ++ [s]))
+  /\ (forall m s aad f, creator_spec (sign_builder_step m (SN_add_created_signature s aad f))
+     (Sign_tbs_data m aad s) f
+     (serialisable (sn_prot m) /\ serialisable (s_prot s))
+     (fun m' out => sign_fields m' (sn_prot m) (sn_unprot m) (sn_payload m)
+        (sn_sigs m ++ [mkSignature (s_prot s) (s_unprot s) out])))
+  /\ (forall m s pl aad f, creator_spec (sign_builder_step m (SN_add_detached_signature s pl aad f))
+     (Sign_tbs_detached_data m pl aad s) f
+     (sn_payload m = None /\ serialisable (sn_prot m) /\ serialisable (s_prot s))
+     (fun m' out => sign_fields m' (sn_prot m) (sn_unprot m) (sn_payload m)
+        (sn_sigs m ++ [mkSignature (s_prot s) (s_unprot s) out])))
+  /\ (forall m s aad f, creator_spec (sign_builder_step m (SN_try_add_created_signature s aad f))
+     (Sign_tbs_data m aad s) f
+     (serialisable (sn_prot m) /\ serialisable (s_prot s))
+     (fun m' out => sign_fields m' (sn_prot m) (sn_unprot m) (sn_payload m)
+        (sn_sigs m ++ [mkSignature (s_prot s) (s_unprot s) out])))
+  /\ (forall m s pl aad f, creator_spec (sign_builder_step m (SN_try_add_detached_signature s pl aad f))
+     (Sign_tbs_detached_data m pl aad s) f
+     (sn_payload m = None /\ serialisable (sn_prot m) /\ serialisable (s_prot s))
+     (fun m' out => sign_fields m' (sn_prot m) (sn_unprot m) (sn_payload m)
+        (sn_sigs m ++ [mkSignature (s_prot s) (s_unprot s) out]))).
+Proof. exact BuilderFrames.sign_step_effect. Qed.
+Print Assumptions C19_sign_step_effect.
+
+Theorem C19_sign_step_frame :
+  forall m o m',
+  sign_builder_step m o = Ok m' -> sign_unchanged_outside (sign_writes o) m m'.
+Proof. exact BuilderFrames.sign_step_frame. Qed.
+Print Assumptions C19_sign_step_frame.
+
+Theorem C19_sign_later_setter_overrides :
+  (forall m h1 h2, seq2 sign_builder_step m (SN_protected h1) (SN_protected h2) = sign_builder_step m (SN_protected h2))
+  /\ (forall m h1 h2, seq2 sign_builder_step m (SN_unprotected h1) (SN_unprotected h2) = sign_builder_step m (SN_unprotected h2))
+  /\ (forall m b1 b2, seq2 sign_builder_step m (SN_payload b1) (SN_payload b2) = sign_builder_step m (SN_payload b2)).
+Proof. exact BuilderFrames.sign_later_setter_overrides. Qed.
+Print Assumptions C19_sign_later_setter_overrides.
+
+Theorem C19_sign_accumulates :
+  (forall l m, run_ops sign_builder_step (map SN_add_signature l) m =
+     Ok (mkSign (sn_prot m) (sn_unprot m) (sn_payload m) (sn_sigs m ++ l))).
+Proof. exact BuilderFrames.sign_accumulates. Qed.
+Print Assumptions C19_sign_accumulates.
+
+Theorem C19_sign_ops_commute :
+  forall m o1 o2, sign_independent o1 o2 ->
+  seq2 sign_builder_step m o1 o2 = seq2 sign_builder_step m o2 o1.
+Proof. exact BuilderFrames.sign_ops_commute. Qed.
+Print Assumptions C19_sign_ops_commute.
+
+Theorem C19_mac0_step_effect :
+  (* retained wire bytes are dropped *)
+  (forall m h, exists m', mac0_builder_step m (M0_protected h) = Ok m' /\
+     mac0_fields m' (mkProtected None h) (m0_unprot m) (m0_payload m) (m0_tag m))
+  /\ (forall m h, exists m', mac0_builder_step m (M0_unprotected h) = Ok m' /\
+     mac0_fields m' (m0_prot m) h (m0_payload m) (m0_tag m))
+  /\ (forall m b, exists m', mac0_builder_step m (M0_tag b) = Ok m' /\
+     mac0_fields m' (m0_prot m) (m0_unprot m) (m0_payload m) b)
+  /\ (forall m b, exists m', mac0_builder_step m (M0_payload b) = Ok m' /\
+     mac0_fields m' (m0_prot m) (m0_unprot m) (Some b) (m0_tag m))
+  /\ (forall m aad f, creator_spec (mac0_builder_step m (M0_create_tag aad f))
+     (Mac0_tbm m aad) f
+     (m0_payload m <> None /\ serialisable (m0_prot m))
+     (fun m' out => mac0_fields m' (m0_prot m) (m0_unprot m) (m0_payload m) out))
+  /\ (forall m aad f, creator_spec (mac0_builder_step m (M0_try_create_tag aad f))
+     (Mac0_tbm m aad) f
+     (m0_payload m <> None /\ serialisable (m0_prot m))
+     (fun m' out => mac0_fields m' (m0_prot m) (m0_unprot m) (m0_payload m) out)).
+Proof. exact BuilderFrames.mac0_step_effect. Qed.
+Print Assumptions C19_mac0_step_effect.
+
+Theorem C19_mac0_step_frame :
+  forall m o m',
+  mac0_builder_step m o = Ok m' -> mac0_unchanged_outside (mac0_writes o) m m'.
+Proof. exact BuilderFrames.mac0_step_frame. Qed.
+Print Assumptions C19_mac0_step_frame.
+
+Theorem C19_mac0_later_setter_overrides :
+  (forall m h1 h2, seq2 mac0_builder_step m (M0_protected h1) (M0_protected h2) = mac0_builder_step m (M0_protected h2))
+  /\ (forall m h1 h2, seq2 mac0_builder_step m (M0_unprotected h1) (M0_unprotected h2) = mac0_builder_step m (M0_unprotected h2))
+  /\ (forall m b1 b2, seq2 mac0_builder_step m (M0_tag b1) (M0_tag b2) = mac0_builder_step m (M0_tag b2))
+  /\ (forall m b1 b2, seq2 mac0_builder_step m (M0_payload b1) (M0_payload b2) = mac0_builder_step m (M0_payload b2)).
+Proof. exact BuilderFrames.mac0_later_setter_overrides. Qed.
+Print Assumptions C19_mac0_later_setter_overrides.
+
+Theorem C19_mac0_ops_commute :
+  forall m o1 o2, mac0_independent o1 o2 ->
+  seq2 mac0_builder_step m o1 o2 = seq2 mac0_builder_step m o2 o1.
+Proof. exact BuilderFrames.mac0_ops_commute. Qed.
+Print Assumptions C19_mac0_ops_commute.
+
+Theorem C19_mac_step_effect :
+  (* retained wire bytes are dropped *)
+  (forall m h, exists m', mac_builder_step m (MC_protected h) = Ok m' /\
+     mac_fields m' (mkProtected None h) (mc_unprot m) (mc_payload m) (mc_tag m) (mc_recipients m))
+  /\ (forall m h, exists m', mac_builder_step m (MC_unprotected h) = Ok m' /\
+     mac_fields m' (mc_prot m) h (mc_payload m) (mc_tag m) (mc_recipients m))
+  /\ (forall m b, exists m', mac_builder_step m (MC_tag b) = Ok m' /\
+     mac_fields m' (mc_prot m) (mc_unprot m) (mc_payload m) b (mc_recipients m))
+  /\ (forall m b, exists m', mac_builder_step m (MC_payload b) = Ok m' /\
+     mac_fields m' (mc_prot m) (mc_unprot m) (Some b) (mc_tag m) (mc_recipients m))
+  /\ (forall m r, exists m', mac_builder_step m (MC_add_recipient r) = Ok m' /\
+     mac_fields m' (mc_prot m) (mc_unprot m) (mc_payload m) (mc_tag m) (mc_recipients m ++ [r]))
+  /\ (forall m aad f, creator_spec (mac_builder_step m (MC_create_tag aad f))
+     (Mac_tbm m aad) f
+     (mc_payload m <> None /\ serialisable (mc_prot m))
+     (fun m' out => mac_fields m' (mc_prot m) (mc_unprot m) (mc_payload m) out (mc_recipients m)))
+  /\ (forall m aad f, creator_spec (mac_builder_step m (MC_try_create_tag aad f))
+     (Mac_tbm m aad) f
+     (mc_payload m <> None /\ serialisable (mc_prot m))
+     (fun m' out => mac_fields m' (mc_prot m) (mc_unprot m) (mc_payload m) out (mc_recipients m))).
+Proof. exact BuilderFrames.mac_step_effect. Qed.
+Print Assumptions C19_mac_step_effect.
+
+Theorem C19_mac_step_frame :
+  forall m o m',
+  mac_builder_step m o = Ok m' -> mac_unchanged_outside (mac_writes o) m m'.
+Proof. exact BuilderFrames.mac_step_frame. Qed.
+Print Assumptions C19_mac_step_frame.
+
+Theorem C19_mac_later_setter_overrides :
+  (forall m h1 h2, seq2 mac_builder_step m (MC_protected h1) (MC_protected h2) = mac_builder_step m (MC_protected h2))
+  /\ (forall m h1 h2, seq2 mac_builder_step m (MC_unprotected h1) (MC_unprotected h2) = mac_builder_step m (MC_unprotected h2))
+  /\ (forall m b1 b2, seq2 mac_builder_step m (MC_tag b1) (MC_tag b2) = mac_builder_step m (MC_tag b2))
+  /\ (forall m b1 b2, seq2 mac_builder_step m (MC_payload b1) (MC_payload b2) = mac_builder_step m (MC_payload b2)).
+Proof. exact BuilderFrames.mac_later_setter_overrides. Qed.
+Print Assumptions C19_mac_later_setter_overrides.
+
+Theorem C19_mac_accumulates :
+  (forall l m, run_ops mac_builder_step (map MC_add_recipient l) m =
+     Ok (mkMac (mc_prot m) (mc_unprot m) (mc_payload m) (mc_tag m) (mc_recipients m ++ l))).
+Proof. exact BuilderFrames.mac_accumulates. Qed.
+Print Assumptions C19_mac_accumulates.
+
+Theorem C19_mac_ops_commute :
+  forall m o1 o2, mac_independent o1 o2 ->
+  seq2 mac_builder_step m o1 o2 = seq2 mac_builder_step m o2 o1.
+Proof. exact BuilderFrames.mac_ops_commute. Qed.
+Print Assumptions C19_mac_ops_commute.
+
+Theorem C19_recipient_step_effect :
+  (* retained wire bytes are dropped *)
+  (forall m h, exists m', recipient_builder_step m (RO_protected h) = Ok m' /\
+     recipient_fields m' (mkProtected None h) (r_unprot m) (r_ct m) (r_recipients m))
+  /\ (forall m h, exists m', recipient_builder_step m (RO_unprotected h) = Ok m' /\
+     recipient_fields m' (r_prot m) h (r_ct m) (r_recipients m))
+  /\ (forall m b, exists m', recipient_builder_step m (RO_ciphertext b) = Ok m' /\
+     recipient_fields m' (r_prot m) (r_unprot m) (Some b) (r_recipients m))
+  /\ (forall m r, exists m', recipient_builder_step m (RO_add_recipient r) = Ok m' /\
+     recipient_fields m' (r_prot m) (r_unprot m) (r_ct m) (r_recipients m ++ [r]))
+  /\ (forall m c pt aad f, creator_spec (recipient_builder_step m (RO_create_ciphertext c pt aad f))
+     (recipient_aad m c aad) (f pt)
+     (is_recipient_context c = true /\ serialisable (r_prot m))
+     (fun m' out => recipient_fields m' (r_prot m) (r_unprot m) (Some out) (r_recipients m)))
+  /\ (forall m c pt aad f, creator_spec (recipient_builder_step m (RO_try_create_ciphertext c pt aad f))
+     (recipient_aad m c aad) (f pt)
+     (is_recipient_context c = true /\ serialisable (r_prot m))
+     (fun m' out => recipient_fields m' (r_prot m) (r_unprot m) (Some out) (r_recipients m))).
+Proof. exact BuilderFrames.recipient_step_effect. Qed.
+Print Assumptions C19_recipient_step_effect.
+
+Theorem C19_recipient_step_frame :
+  forall m o m',
+  recipient_builder_step m o = Ok m' -> recipient_unchanged_outside (recipient_writes o) m m'.
+Proof. exact BuilderFrames.recipient_step_frame. Qed.
+Print Assumptions C19_recipient_step_frame.
+
+Theorem C19_recipient_later_setter_overrides :
+  (forall m h1 h2, seq2 recipient_builder_step m (RO_protected h1) (RO_protected h2) = recipient_builder_step m (RO_protected h2))
+  /\ (forall m h1 h2, seq2 recipient_builder_step m (RO_unprotected h1) (RO_unprotected h2) = recipient_builder_step m (RO_unprotected h2))
+  /\ (forall m b1 b2, seq2 recipient_builder_step m (RO_ciphertext b1) (RO_ciphertext b2) = recipient_builder_step m (RO_ciphertext b2)).
+Proof. exact BuilderFrames.recipient_later_setter_overrides. Qed.
+Print Assumptions C19_recipient_later_setter_overrides.
+
+Theorem C19_recipient_accumulates :
+  (forall l m, run_ops recipient_builder_step (map RO_add_recipient l) m =
+     Ok (mkRecipient (r_prot m) (r_unprot m) (r_ct m) (r_recipients m ++ l))).
+Proof. exact BuilderFrames.recipient_accumulates. Qed.
+Print Assumptions C19_recipient_accumulates.
+
+Theorem C19_recipient_ops_commute :
+  forall m o1 o2, recipient_independent o1 o2 ->
+  seq2 recipient_builder_step m o1 o2 = seq2 recipient_builder_step m o2 o1.
+Proof. exact BuilderFrames.recipient_ops_commute. Qed.
+Print Assumptions C19_recipient_ops_commute.
+
+Theorem C19_encrypt_step_effect :
+  (* retained wire bytes are dropped *)
+  (forall m h, exists m', encrypt_builder_step m (EO_protected h) = Ok m' /\
+     encrypt_fields m' (mkProtected None h) (en_unprot m) (en_ct m) (en_recipients m))
+  /\ (forall m h, exists m', encrypt_builder_step m (EO_unprotected h) = Ok m' /\
+     encrypt_fields m' (en_prot m) h (en_ct m) (en_recipients m))
+  /\ (forall m b, exists m', encrypt_builder_step m (EO_ciphertext b) = Ok m' /\
+     encrypt_fields m' (en_prot m) (en_unprot m) (Some b) (en_recipients m))
+  /\ (forall m r, exists m', encrypt_builder_step m (EO_add_recipient r) = Ok m' /\
+     encrypt_fields m' (en_prot m) (en_unprot m) (en_ct m) (en_recipients m ++ [r]))
+  /\ (forall m pt aad f, creator_spec (encrypt_builder_step m (EO_create_ciphertext pt aad f))
+     (enc_structure_data EncCoseEncrypt (en_prot m) aad) (f pt)
+     (serialisable (en_prot m))
+     (fun m' out => encrypt_fields m' (en_prot m) (en_unprot m) (Some out) (en_recipients m)))
+  /\ (forall m pt aad f, creator_spec (encrypt_builder_step m (EO_try_create_ciphertext pt aad f))
+     (enc_structure_data EncCoseEncrypt (en_prot m) aad) (f pt)
+     (serialisable (en_prot m))
+     (fun m' out => encrypt_fields m' (en_prot m) (en_unprot m) (Some out) (en_recipients m))).
+Proof. exact BuilderFrames.encrypt_step_effect. Qed.
+Print Assumptions C19_encrypt_step_effect.
+
+Theorem C19_encrypt_step_frame :
+  forall m o m',
+  encrypt_builder_step m o = Ok m' -> encrypt_unchanged_outside (encrypt_writes o) m m'.
+Proof. exact BuilderFrames.encrypt_step_frame. Qed.
+Print Assumptions C19_encrypt_step_frame.
+
+Theorem C19_encrypt_later_setter_overrides :
+  (forall m h1 h2, seq2 encrypt_builder_step m (EO_protected h1) (EO_protected h2) = encrypt_builder_step m (EO_protected h2))
+  /\ (forall m h1 h2, seq2 encrypt_builder_step m (EO_unprotected h1) (EO_unprotected h2) = encrypt_builder_step m (EO_unprotected h2))
+  /\ (forall m b1 b2, seq2 encrypt_builder_step m (EO_ciphertext b1) (EO_ciphertext b2) = encrypt_builder_step m (EO_ciphertext b2)).
+Proof. exact BuilderFrames.encrypt_later_setter_overrides. Qed.
+Print Assumptions C19_encrypt_later_setter_overrides.
+
+Theorem C19_encrypt_accumulates :
+  (forall l m, run_ops encrypt_builder_step (map EO_add_recipient l) m =
+     Ok (mkEncrypt (en_prot m) (en_unprot m) (en_ct m) (en_recipients m ++ l))).
+Proof. exact BuilderFrames.encrypt_accumulates. Qed.
+Print Assumptions C19_encrypt_accumulates.
+
+Theorem C19_encrypt_ops_commute :
+  forall m o1 o2, encrypt_independent o1 o2 ->
+  seq2 encrypt_builder_step m o1 o2 = seq2 encrypt_builder_step m o2 o1.
+Proof. exact BuilderFrames.encrypt_ops_commute. Qed.
+Print Assumptions C19_encrypt_ops_commute.
+
+Theorem C19_encrypt0_step_effect :
+  (* retained wire bytes are dropped *)
+  (forall m h, exists m', encrypt0_builder_step m (E0_protected h) = Ok m' /\
+     encrypt0_fields m' (mkProtected None h) (e0_unprot m) (e0_ct m))
+  /\ (forall m h, exists m', encrypt0_builder_step m (E0_unprotected h) = Ok m' /\
+     encrypt0_fields m' (e0_prot m) h (e0_ct m))
+  /\ (forall m b, exists m', encrypt0_builder_step m (E0_ciphertext b) = Ok m' /\
+     encrypt0_fields m' (e0_prot m) (e0_unprot m) (Some b))
+  /\ (forall m pt aad f, creator_spec (encrypt0_builder_step m (E0_create_ciphertext pt aad f))
+     (enc_structure_data EncCoseEncrypt0 (e0_prot m) aad) (f pt)
+     (serialisable (e0_prot m))
+     (fun m' out => encrypt0_fields m' (e0_prot m) (e0_unprot m) (Some out)))
+  /\ (forall m pt aad f, creator_spec (encrypt0_builder_step m (E0_try_create_ciphertext pt aad f))
+     (enc_structure_data EncCoseEncrypt0 (e0_prot m) aad) (f pt)
+     (serialisable (e0_prot m))
+     (fun m' out => encrypt0_fields m' (e0_prot m) (e0_unprot m) (Some out))).
+Proof. exact BuilderFrames.encrypt0_step_effect. Qed.
+Print Assumptions C19_encrypt0_step_effect.
+
+Theorem C19_encrypt0_step_frame :
+  forall m o m',
+  encrypt0_builder_step m o = Ok m' -> encrypt0_unchanged_outside (encrypt0_writes o) m m'.
+Proof. exact BuilderFrames.encrypt0_step_frame. Qed.
+Print Assumptions C19_encrypt0_step_frame.
+
+Theorem C19_encrypt0_later_setter_overrides :
+  (forall m h1 h2, seq2 encrypt0_builder_step m (E0_protected h1) (E0_protected h2) = encrypt0_builder_step m (E0_protected h2))
+  /\ (forall m h1 h2, seq2 encrypt0_builder_step m (E0_unprotected h1) (E0_unprotected h2) = encrypt0_builder_step m (E0_unprotected h2))
+  /\ (forall m b1 b2, seq2 encrypt0_builder_step m (E0_ciphertext b1) (E0_ciphertext b2) = encrypt0_builder_step m (E0_ciphertext b2)).
+Proof. exact BuilderFrames.encrypt0_later_setter_overrides. Qed.
+Print Assumptions C19_encrypt0_later_setter_overrides.
+
+Theorem C19_encrypt0_ops_commute :
+  forall m o1 o2, encrypt0_independent o1 o2 ->
+  seq2 encrypt0_builder_step m o1 o2 = seq2 encrypt0_builder_step m o2 o1.
+Proof. exact BuilderFrames.encrypt0_ops_commute. Qed.
+Print Assumptions C19_encrypt0_ops_commute.
+
+Theorem C19_key_step_effect :
+  (* the constructors reset every field *)
+  (forall k, exists k', key_builder_step k KO_new = Ok k' /\
+     key_fields k' (RAssigned 0) [] None [] [] [])
+  /\ (forall k c x y, exists k', key_builder_step k (KO_new_ec2_pub_key c x y) = Ok k' /\
+     key_fields k' (RAssigned 2) [] None [] [] [(LInt (-1), VInt c); (LInt (-2), VBytes x); (LInt (-3), VBytes y)])
+  /\ (forall k c x ys, exists k', key_builder_step k (KO_new_ec2_pub_key_y_sign c x ys) = Ok k' /\
+     key_fields k' (RAssigned 2) [] None [] [] [(LInt (-1), VInt c); (LInt (-2), VBytes x); (LInt (-3), VBool ys)])
+  /\ (forall k c x y d, exists k', key_builder_step k (KO_new_ec2_priv_key c x y d) = Ok k' /\
+     key_fields k' (RAssigned 2) [] None [] [] [(LInt (-1), VInt c); (LInt (-2), VBytes x); (LInt (-3), VBytes y); (LInt (-4), VBytes d)])
+  /\ (forall k kk, exists k', key_builder_step k (KO_new_symmetric_key kk) = Ok k' /\
+     key_fields k' (RAssigned 4) [] None [] [] [(LInt (-1), VBytes kk)])
+  /\ (forall k, exists k', key_builder_step k KO_new_okp_key = Ok k' /\
+     key_fields k' (RAssigned 1) [] None [] [] [])
+  /\ (forall k t, exists k', key_builder_step k (KO_kty t) = Ok k' /\
+     key_fields k' t (k_kid k) (k_alg k) (k_ops k) (k_base_iv k) (k_params k))
+  /\ (forall k b, exists k', key_builder_step k (KO_key_id b) = Ok k' /\
+     key_fields k' (k_kty k) b (k_alg k) (k_ops k) (k_base_iv k) (k_params k))
+  /\ (forall k b, exists k', key_builder_step k (KO_base_iv b) = Ok k' /\
+     key_fields k' (k_kty k) (k_kid k) (k_alg k) (k_ops k) b (k_params k))
+  /\ (forall k t, exists k', key_builder_step k (KO_key_type t) = Ok k' /\
+     key_fields k' (RAssigned t) (k_kid k) (k_alg k) (k_ops k) (k_base_iv k) (k_params k))
+  /\ (forall k a, exists k', key_builder_step k (KO_algorithm a) = Ok k' /\
+     key_fields k' (k_kty k) (k_kid k) (Some (PAssigned a)) (k_ops k) (k_base_iv k) (k_params k))
+  /\ (* BTreeSet insert *)
+  (forall k o, exists k', key_builder_step k (KO_add_key_op o) = Ok k' /\
+     key_fields k' (k_kty k) (k_kid k) (k_alg k) (snd (reg_set_insert (RAssigned o) (k_ops k))) (k_base_iv k) (k_params k))
+  /\ (* param: documented panic exactly on the registered key parameters 0..5 *)
+  (forall k l v, ~ (0 <= l <= 5) -> exists k', key_builder_step k (KO_param l v) = Ok k' /\
+     key_fields k' (k_kty k) (k_kid k) (k_alg k) (k_ops k) (k_base_iv k) (k_params k ++ [(LInt l, v)]))
+  /\ (forall k l v, 0 <= l <= 5 -> key_builder_step k (KO_param l v) = Panic).
+Proof. exact BuilderFrames.key_step_effect. Qed.
+Print Assumptions C19_key_step_effect.
+
+Theorem C19_key_step_frame :
+  forall k o k',
+  key_builder_step k o = Ok k' -> key_unchanged_outside (key_writes o) k k'.
+Proof. exact BuilderFrames.key_step_frame. Qed.
+Print Assumptions C19_key_step_frame.
+
+Theorem C19_key_later_setter_overrides :
+  (forall k, seq2 key_builder_step k KO_new KO_new = key_builder_step k KO_new)
+  /\ (forall k c1 x1 y1 c2 x2 y2, seq2 key_builder_step k (KO_new_ec2_pub_key c1 x1 y1) (KO_new_ec2_pub_key c2 x2 y2) = key_builder_step k (KO_new_ec2_pub_key c2 x2 y2))
+  /\ (forall k c1 x1 ys1 c2 x2 ys2, seq2 key_builder_step k (KO_new_ec2_pub_key_y_sign c1 x1 ys1) (KO_new_ec2_pub_key_y_sign c2 x2 ys2) = key_builder_step k (KO_new_ec2_pub_key_y_sign c2 x2 ys2))
+  /\ (forall k c1 x1 y1 d1 c2 x2 y2 d2, seq2 key_builder_step k (KO_new_ec2_priv_key c1 x1 y1 d1) (KO_new_ec2_priv_key c2 x2 y2 d2) = key_builder_step k (KO_new_ec2_priv_key c2 x2 y2 d2))
+  /\ (forall k kk1 kk2, seq2 key_builder_step k (KO_new_symmetric_key kk1) (KO_new_symmetric_key kk2) = key_builder_step k (KO_new_symmetric_key kk2))
+  /\ (forall k, seq2 key_builder_step k KO_new_okp_key KO_new_okp_key = key_builder_step k KO_new_okp_key)
+  /\ (forall k t1 t2, seq2 key_builder_step k (KO_kty t1) (KO_kty t2) = key_builder_step k (KO_kty t2))
+  /\ (forall k b1 b2, seq2 key_builder_step k (KO_key_id b1) (KO_key_id b2) = key_builder_step k (KO_key_id b2))
+  /\ (forall k b1 b2, seq2 key_builder_step k (KO_base_iv b1) (KO_base_iv b2) = key_builder_step k (KO_base_iv b2))
+  /\ (forall k t1 t2, seq2 key_builder_step k (KO_key_type t1) (KO_key_type t2) = key_builder_step k (KO_key_type t2))
+  /\ (forall k a1 a2, seq2 key_builder_step k (KO_algorithm a1) (KO_algorithm a2) = key_builder_step k (KO_algorithm a2))
+  /\ (* kty and key_type set the same field *)
+  (forall k t, key_builder_step k (KO_key_type t) = key_builder_step k (KO_kty (RAssigned t)))
+  /\ (forall k t1 t2, seq2 key_builder_step k (KO_kty t1) (KO_key_type t2) = key_builder_step k (KO_key_type t2))
+  /\ (forall k t1 t2, seq2 key_builder_step k (KO_key_type t1) (KO_kty t2) = key_builder_step k (KO_kty t2)).
+Proof. exact BuilderFrames.key_later_setter_overrides. Qed.
+Print Assumptions C19_key_later_setter_overrides.
+
+Theorem C19_key_accumulates :
+  (forall lvs k, Forall (fun lv => ~ (0 <= fst lv <= 5)) lvs ->
+     run_ops key_builder_step (map (fun lv => KO_param (fst lv) (snd lv)) lvs) k =
+     Ok (set_kparams (k_params k ++ map (fun lv => (LInt (fst lv), snd lv)) lvs) k))
+  /\ (* key operations form a set: calls insert in order, a repeated call changes nothing *)
+  (forall os k, run_ops key_builder_step (map KO_add_key_op os) k =
+     Ok (set_kops (fold_left (fun acc o => snd (reg_set_insert (RAssigned o) acc)) os (k_ops k)) k))
+  /\ (forall k o, seq2 key_builder_step k (KO_add_key_op o) (KO_add_key_op o) = key_builder_step k (KO_add_key_op o))
+  /\ (forall k o k' x, key_builder_step k (KO_add_key_op o) = Ok k' ->
+     (In x (k_ops k') <-> x = RAssigned o \/ In x (k_ops k))).
+Proof. exact BuilderFrames.key_accumulates. Qed.
+Print Assumptions C19_key_accumulates.
+
+Theorem C19_key_ops_commute :
+  forall k o1 o2, key_independent o1 o2 ->
+  seq2 key_builder_step k o1 o2 = seq2 key_builder_step k o2 o1.
+Proof. exact BuilderFrames.key_ops_commute. Qed.
+Print Assumptions C19_key_ops_commute.
+
+Theorem C19_claims_step_effect :
+  (forall c t, exists c', claims_builder_step c (CO_issuer t) = Ok c' /\
+     claims_fields c' (Some t) (c_sub c) (c_aud c) (c_exp c) (c_nbf c) (c_iat c) (c_cti c) (c_rest c))
+  /\ (forall c t, exists c', claims_builder_step c (CO_subject t) = Ok c' /\
+     claims_fields c' (c_iss c) (Some t) (c_aud c) (c_exp c) (c_nbf c) (c_iat c) (c_cti c) (c_rest c))
+  /\ (forall c t, exists c', claims_builder_step c (CO_audience t) = Ok c' /\
+     claims_fields c' (c_iss c) (c_sub c) (Some t) (c_exp c) (c_nbf c) (c_iat c) (c_cti c) (c_rest c))
+  /\ (forall c t, exists c', claims_builder_step c (CO_expiration_time t) = Ok c' /\
+     claims_fields c' (c_iss c) (c_sub c) (c_aud c) (Some t) (c_nbf c) (c_iat c) (c_cti c) (c_rest c))
+  /\ (forall c t, exists c', claims_builder_step c (CO_not_before t) = Ok c' /\
+     claims_fields c' (c_iss c) (c_sub c) (c_aud c) (c_exp c) (Some t) (c_iat c) (c_cti c) (c_rest c))
+  /\ (forall c t, exists c', claims_builder_step c (CO_issued_at t) = Ok c' /\
+     claims_fields c' (c_iss c) (c_sub c) (c_aud c) (c_exp c) (c_nbf c) (Some t) (c_cti c) (c_rest c))
+  /\ (forall c b, exists c', claims_builder_step c (CO_cwt_id b) = Ok c' /\
+     claims_fields c' (c_iss c) (c_sub c) (c_aud c) (c_exp c) (c_nbf c) (c_iat c) (Some b) (c_rest c))
+  /\ (* claim: documented panic exactly on the core claims 1..7 *)
+  (forall c n v, ~ (1 <= n <= 7) -> exists c', claims_builder_step c (CO_claim n v) = Ok c' /\
+     claims_fields c' (c_iss c) (c_sub c) (c_aud c) (c_exp c) (c_nbf c) (c_iat c) (c_cti c) (c_rest c ++ [(PAssigned n, v)]))
+  /\ (forall c n v, 1 <= n <= 7 -> claims_builder_step c (CO_claim n v) = Panic)
+  /\ (forall c n v, exists c', claims_builder_step c (CO_text_claim n v) = Ok c' /\
+     claims_fields c' (c_iss c) (c_sub c) (c_aud c) (c_exp c) (c_nbf c) (c_iat c) (c_cti c) (c_rest c ++ [(PText n, v)]))
+  /\ (* private_claim: documented panic exactly outside the private range *)
+  (forall c i v, i < -65536 -> exists c', claims_builder_step c (CO_private_claim i v) = Ok c' /\
+     claims_fields c' (c_iss c) (c_sub c) (c_aud c) (c_exp c) (c_nbf c) (c_iat c) (c_cti c) (c_rest c ++ [(PPrivate i, v)]))
+  /\ (forall c i v, ~ (i < -65536) -> claims_builder_step c (CO_private_claim i v) = Panic).
+Proof. exact BuilderFrames.claims_step_effect. Qed.
+Print Assumptions C19_claims_step_effect.
+
+Theorem C19_claims_step_frame :
+  forall c o c',
+  claims_builder_step c o = Ok c' -> claims_unchanged_outside (claims_writes o) c c'.
+Proof. exact BuilderFrames.claims_step_frame. Qed.
+Print Assumptions C19_claims_step_frame.
+
+Theorem C19_claims_later_setter_overrides :
+  (forall c t1 t2, seq2 claims_builder_step c (CO_issuer t1) (CO_issuer t2) = claims_builder_step c (CO_issuer t2))
+  /\ (forall c t1 t2, seq2 claims_builder_step c (CO_subject t1) (CO_subject t2) = claims_builder_step c (CO_subject t2))
+  /\ (forall c t1 t2, seq2 claims_builder_step c (CO_audience t1) (CO_audience t2) = claims_builder_step c (CO_audience t2))
+  /\ (forall c t1 t2, seq2 claims_builder_step c (CO_expiration_time t1) (CO_expiration_time t2) = claims_builder_step c (CO_expiration_time t2))
+  /\ (forall c t1 t2, seq2 claims_builder_step c (CO_not_before t1) (CO_not_before t2) = claims_builder_step c (CO_not_before t2))
+  /\ (forall c t1 t2, seq2 claims_builder_step c (CO_issued_at t1) (CO_issued_at t2) = claims_builder_step c (CO_issued_at t2))
+  /\ (forall c b1 b2, seq2 claims_builder_step c (CO_cwt_id b1) (CO_cwt_id b2) = claims_builder_step c (CO_cwt_id b2)).
+Proof. exact BuilderFrames.claims_later_setter_overrides. Qed.
+Print Assumptions C19_claims_later_setter_overrides.
+
+Theorem C19_claims_accumulates :
+  (forall nvs c, Forall (fun nv => ~ (1 <= fst nv <= 7)) nvs ->
+     run_ops claims_builder_step (map (fun nv => CO_claim (fst nv) (snd nv)) nvs) c =
+     Ok (claims_set_rest (c_rest c ++ map (fun nv => (PAssigned (fst nv), snd nv)) nvs) c))
+  /\ (forall nvs c, run_ops claims_builder_step (map (fun nv => CO_text_claim (fst nv) (snd nv)) nvs) c =
+     Ok (claims_set_rest (c_rest c ++ map (fun nv => (PText (fst nv), snd nv)) nvs) c))
+  /\ (forall nvs c, Forall (fun nv => fst nv < -65536) nvs ->
+     run_ops claims_builder_step (map (fun nv => CO_private_claim (fst nv) (snd nv)) nvs) c =
+     Ok (claims_set_rest (c_rest c ++ map (fun nv => (PPrivate (fst nv), snd nv)) nvs) c)).
+Proof. exact BuilderFrames.claims_accumulates. Qed.
+Print Assumptions C19_claims_accumulates.
+
+Theorem C19_claims_ops_commute :
+  forall c o1 o2, claims_independent o1 o2 ->
+  seq2 claims_builder_step c o1 o2 = seq2 claims_builder_step c o2 o1.
+Proof. exact BuilderFrames.claims_ops_commute. Qed.
+Print Assumptions C19_claims_ops_commute.
+
+Theorem C19_party_step_effect :
+  (forall p b, exists p', party_builder_step p (PO_identity b) = Ok p' /\
+     party_fields p' (Some b) (pi_nonce p) (pi_other p))
+  /\ (forall p n, exists p', party_builder_step p (PO_nonce n) = Ok p' /\
+     party_fields p' (pi_identity p) (Some n) (pi_other p))
+  /\ (forall p b, exists p', party_builder_step p (PO_other b) = Ok p' /\
+     party_fields p' (pi_identity p) (pi_nonce p) (Some b)).
+Proof. exact BuilderFrames.party_step_effect. Qed.
+Print Assumptions C19_party_step_effect.
+
+Theorem C19_party_step_frame :
+  forall p o p',
+  party_builder_step p o = Ok p' -> party_unchanged_outside (party_writes o) p p'.
+Proof. exact BuilderFrames.party_step_frame. Qed.
+Print Assumptions C19_party_step_frame.
+
+Theorem C19_party_later_setter_overrides :
+  (forall p b1 b2, seq2 party_builder_step p (PO_identity b1) (PO_identity b2) = party_builder_step p (PO_identity b2))
+  /\ (forall p n1 n2, seq2 party_builder_step p (PO_nonce n1) (PO_nonce n2) = party_builder_step p (PO_nonce n2))
+  /\ (forall p b1 b2, seq2 party_builder_step p (PO_other b1) (PO_other b2) = party_builder_step p (PO_other b2)).
+Proof. exact BuilderFrames.party_later_setter_overrides. Qed.
+Print Assumptions C19_party_later_setter_overrides.
+
+Theorem C19_party_ops_commute :
+  forall p o1 o2, party_independent o1 o2 ->
+  seq2 party_builder_step p o1 o2 = seq2 party_builder_step p o2 o1.
+Proof. exact BuilderFrames.party_ops_commute. Qed.
+Print Assumptions C19_party_ops_commute.
+
+Theorem C19_supp_step_effect :
+  (forall s n, exists s', supp_builder_step s (UO_key_data_length n) = Ok s' /\
+     supp_fields s' n (sp_prot s) (sp_other s))
+  /\ (* retained wire bytes are dropped *)
+  (forall s h, exists s', supp_builder_step s (UO_protected h) = Ok s' /\
+     supp_fields s' (sp_len s) (mkProtected None h) (sp_other s))
+  /\ (forall s b, exists s', supp_builder_step s (UO_other b) = Ok s' /\
+     supp_fields s' (sp_len s) (sp_prot s) (Some b)).
+Proof. exact BuilderFrames.supp_step_effect. Qed.
+Print Assumptions C19_supp_step_effect.
+
+Theorem C19_supp_step_frame :
+  forall s o s',
+  supp_builder_step s o = Ok s' -> supp_unchanged_outside (supp_writes o) s s'.
+Proof. exact BuilderFrames.supp_step_frame. Qed.
+Print Assumptions C19_supp_step_frame.
+
+Theorem C19_supp_later_setter_overrides :
+  (forall s n1 n2, seq2 supp_builder_step s (UO_key_data_length n1) (UO_key_data_length n2) = supp_builder_step s (UO_key_data_length n2))
+  /\ (forall s h1 h2, seq2 supp_builder_step s (UO_protected h1) (UO_protected h2) = supp_builder_step s (UO_protected h2))
+  /\ (forall s b1 b2, seq2 supp_builder_step s (UO_other b1) (UO_other b2) = supp_builder_step s (UO_other b2)).
+Proof. exact BuilderFrames.supp_later_setter_overrides. Qed.
+Print Assumptions C19_supp_later_setter_overrides.
+
+Theorem C19_supp_ops_commute :
+  forall s o1 o2, supp_independent o1 o2 ->
+  seq2 supp_builder_step s o1 o2 = seq2 supp_builder_step s o2 o1.
+Proof. exact BuilderFrames.supp_ops_commute. Qed.
+Print Assumptions C19_supp_ops_commute.
+
+Theorem C19_kdf_step_effect :
+  (forall k p, exists k', kdf_builder_step k (DO_party_u_info p) = Ok k' /\
+     kdf_fields k' (kc_alg k) p (kc_v k) (kc_pub k) (kc_priv k))
+  /\ (forall k p, exists k', kdf_builder_step k (DO_party_v_info p) = Ok k' /\
+     kdf_fields k' (kc_alg k) (kc_u k) p (kc_pub k) (kc_priv k))
+  /\ (forall k s, exists k', kdf_builder_step k (DO_supp_pub_info s) = Ok k' /\
+     kdf_fields k' (kc_alg k) (kc_u k) (kc_v k) s (kc_priv k))
+  /\ (forall k a, exists k', kdf_builder_step k (DO_algorithm a) = Ok k' /\
+     kdf_fields k' (PAssigned a) (kc_u k) (kc_v k) (kc_pub k) (kc_priv k))
+  /\ (forall k b, exists k', kdf_builder_step k (DO_add_supp_priv_info b) = Ok k' /\
+     kdf_fields k' (kc_alg k) (kc_u k) (kc_v k) (kc_pub k) (kc_priv k ++ [b])).
+Proof. exact BuilderFrames.kdf_step_effect. Qed.
+Print Assumptions C19_kdf_step_effect.
+
+Theorem C19_kdf_step_frame :
+  forall k o k',
+  kdf_builder_step k o = Ok k' -> kdf_unchanged_outside (kdf_writes o) k k'.
+Proof. exact BuilderFrames.kdf_step_frame. Qed.
+Print Assumptions C19_kdf_step_frame.
+
+Theorem C19_kdf_later_setter_overrides :
+  (forall k p1 p2, seq2 kdf_builder_step k (DO_party_u_info p1) (DO_party_u_info p2) = kdf_builder_step k (DO_party_u_info p2))
+  /\ (forall k p1 p2, seq2 kdf_builder_step k (DO_party_v_info p1) (DO_party_v_info p2) = kdf_builder_step k (DO_party_v_info p2))
+  /\ (forall k s1 s2, seq2 kdf_builder_step k (DO_supp_pub_info s1) (DO_supp_pub_info s2) = kdf_builder_step k (DO_supp_pub_info s2))
+  /\ (forall k a1 a2, seq2 kdf_builder_step k (DO_algorithm a1) (DO_algorithm a2) = kdf_builder_step k (DO_algorithm a2)).
+Proof. exact BuilderFrames.kdf_later_setter_overrides. Qed.
+Print Assumptions C19_kdf_later_setter_overrides.
+
+Theorem C19_kdf_accumulates :
+  (forall l k, run_ops kdf_builder_step (map DO_add_supp_priv_info l) k =
+     Ok (mkKdf (kc_alg k) (kc_u k) (kc_v k) (kc_pub k) (kc_priv k ++ l))).
+Proof. exact BuilderFrames.kdf_accumulates. Qed.
+Print Assumptions C19_kdf_accumulates.
+
+Theorem C19_kdf_ops_commute :
+  forall k o1 o2, kdf_independent o1 o2 ->
+  seq2 kdf_builder_step k o1 o2 = seq2 kdf_builder_step k o2 o1.
+Proof. exact BuilderFrames.kdf_ops_commute. Qed.
+Print Assumptions C19_kdf_ops_commute.
+
+Theorem C19_sign1_creators_are_setters :
+  (forall m aad f tbs sg, Sign1_tbs_data m aad = Ok tbs -> f tbs = Some sg ->
+     sign1_builder_step m (S1_create_signature aad f) = sign1_builder_step m (S1_signature sg))
+  /\ (forall m aad f tbs sg, Sign1_tbs_data m aad = Ok tbs -> f tbs = Some sg ->
+     sign1_builder_step m (S1_try_create_signature aad f) = sign1_builder_step m (S1_signature sg))
+  /\ (forall m pl aad f tbs sg, Sign1_tbs_detached_data m pl aad = Ok tbs -> f tbs = Some sg ->
+     sign1_builder_step m (S1_create_detached_signature pl aad f) = sign1_builder_step m (S1_signature sg))
+  /\ (forall m pl aad f tbs sg, Sign1_tbs_detached_data m pl aad = Ok tbs -> f tbs = Some sg ->
+     sign1_builder_step m (S1_try_create_detached_signature pl aad f) = sign1_builder_step m (S1_signature sg)).
+Proof. exact BuilderFrames.sign1_creators_are_setters. Qed.
+Print Assumptions C19_sign1_creators_are_setters.
+
+Theorem C19_sign_creators_are_adders :
+  (forall m s aad f tbs sg, Sign_tbs_data m aad s = Ok tbs -> f tbs = Some sg ->
+     sign_builder_step m (SN_add_created_signature s aad f)
+     = sign_builder_step m (SN_add_signature (mkSignature (s_prot s) (s_unprot s) sg)))
+  /\ (forall m s aad f tbs sg, Sign_tbs_data m aad s = Ok tbs -> f tbs = Some sg ->
+     sign_builder_step m (SN_try_add_created_signature s aad f)
+     = sign_builder_step m (SN_add_signature (mkSignature (s_prot s) (s_unprot s) sg)))
+  /\ (forall m s pl aad f tbs sg, Sign_tbs_detached_data m pl aad s = Ok tbs -> f tbs = Some sg ->
+     sign_builder_step m (SN_add_detached_signature s pl aad f)
+     = sign_builder_step m (SN_add_signature (mkSignature (s_prot s) (s_unprot s) sg)))
+  /\ (forall m s pl aad f tbs sg, Sign_tbs_detached_data m pl aad s = Ok tbs -> f tbs = Some sg ->
+     sign_builder_step m (SN_try_add_detached_signature s pl aad f)
+     = sign_builder_step m (SN_add_signature (mkSignature (s_prot s) (s_unprot s) sg))).
+Proof. exact BuilderFrames.sign_creators_are_adders. Qed.
+Print Assumptions C19_sign_creators_are_adders.
+
+Theorem C19_mac0_creators_are_setters :
+  (forall m aad f tbm tg, Mac0_tbm m aad = Ok tbm -> f tbm = Some tg ->
+     mac0_builder_step m (M0_create_tag aad f) = mac0_builder_step m (M0_tag tg))
+  /\ (forall m aad f tbm tg, Mac0_tbm m aad = Ok tbm -> f tbm = Some tg ->
+     mac0_builder_step m (M0_try_create_tag aad f) = mac0_builder_step m (M0_tag tg)).
+Proof. exact BuilderFrames.mac0_creators_are_setters. Qed.
+Print Assumptions C19_mac0_creators_are_setters.
+
+Theorem C19_mac_creators_are_setters :
+  (forall m aad f tbm tg, Mac_tbm m aad = Ok tbm -> f tbm = Some tg ->
+     mac_builder_step m (MC_create_tag aad f) = mac_builder_step m (MC_tag tg))
+  /\ (forall m aad f tbm tg, Mac_tbm m aad = Ok tbm -> f tbm = Some tg ->
+     mac_builder_step m (MC_try_create_tag aad f) = mac_builder_step m (MC_tag tg)).
+Proof. exact BuilderFrames.mac_creators_are_setters. Qed.
+Print Assumptions C19_mac_creators_are_setters.
+
+Theorem C19_recipient_creators_are_setters :
+  (forall m c pt aad f a ct, recipient_aad m c aad = Ok a -> f pt a = Some ct ->
+     recipient_builder_step m (RO_create_ciphertext c pt aad f) = recipient_builder_step m (RO_ciphertext ct))
+  /\ (forall m c pt aad f a ct, recipient_aad m c aad = Ok a -> f pt a = Some ct ->
+     recipient_builder_step m (RO_try_create_ciphertext c pt aad f) = recipient_builder_step m (RO_ciphertext ct)).
+Proof. exact BuilderFrames.recipient_creators_are_setters. Qed.
+Print Assumptions C19_recipient_creators_are_setters.
+
+Theorem C19_encrypt_creators_are_setters :
+  (forall m pt aad f a ct, enc_structure_data EncCoseEncrypt (en_prot m) aad = Ok a -> f pt a = Some ct ->
+     encrypt_builder_step m (EO_create_ciphertext pt aad f) = encrypt_builder_step m (EO_ciphertext ct))
+  /\ (forall m pt aad f a ct, enc_structure_data EncCoseEncrypt (en_prot m) aad = Ok a -> f pt a = Some ct ->
+     encrypt_builder_step m (EO_try_create_ciphertext pt aad f) = encrypt_builder_step m (EO_ciphertext ct)).
+Proof. exact BuilderFrames.encrypt_creators_are_setters. Qed.
+Print Assumptions C19_encrypt_creators_are_setters.
+
+Theorem C19_encrypt0_creators_are_setters :
+  (forall m pt aad f a ct, enc_structure_data EncCoseEncrypt0 (e0_prot m) aad = Ok a -> f pt a = Some ct ->
+     encrypt0_builder_step m (E0_create_ciphertext pt aad f) = encrypt0_builder_step m (E0_ciphertext ct))
+  /\ (forall m pt aad f a ct, enc_structure_data EncCoseEncrypt0 (e0_prot m) aad = Ok a -> f pt a = Some ct ->
+     encrypt0_builder_step m (E0_try_create_ciphertext pt aad f) = encrypt0_builder_step m (E0_ciphertext ct)).
+Proof. exact BuilderFrames.encrypt0_creators_are_setters. Qed.
+Print Assumptions C19_encrypt0_creators_are_setters.
+
